@@ -198,12 +198,21 @@ def checker(el, feed, call, res, client):
             V("C06/unit/margin-exceeds-turnout", f"unit {u['geographic_unit_fips']}: |pred_margin|={abs(u['pred_margin'])} "
               f"> pred_turnout={pt} (normalised margin outside [-1,1])")
     groups_with_non = 0
+    touched = set(call.get("lhs_called_contests") or []) | set(call.get("rhs_called_contests") or []) | set(
+        call.get("stop_model_call") or [])
     for tname, tdf in res.items():
         if tname not in ref.LEVEL_OF:
             continue
         for r in ref.rows(tdf):
             cnt["group_rows"] = cnt.get("group_rows", 0) + 1
             k = tuple(r[c] for c in ref.table_keys(tdf))
+            if touched:
+                # the strict ordering is stated for groups that are neither called nor stop-listed
+                cname = "_".join(str(r[c]) for c in ("postal_code", "district") if c in r)
+                if cname in touched or str(r.get("postal_code")) in touched:
+                    cnt["called_or_stopped_rows_skipped"] = cnt.get("called_or_stopped_rows_skipped", 0) + 1
+                    continue
+                cnt["rows_next_to_a_called_contest"] = cnt.get("rows_next_to_a_called_contest", 0) + 1
             pm, pt = r["pred_margin"], r["pred_turnout"]
             if not np.isfinite(pm) or not (-1 - 1e-12 <= pm <= 1 + 1e-12):
                 V(f"C06/{tname}/margin-out-of-range", f"{tname}{k}: pred_margin={pm}")
@@ -246,6 +255,8 @@ def run_tables(spec, inputs=None):
     if i % 3 == 0:
         o["district"] = True
         o["must_aggregates"] = ["postal_code", "district", "unit"]
+        if i % 2 == 0:
+            o["call_one_contest"] = True
     spec = dict(spec, o=o, polls=(3 if i % 5 == 4 else 0), shared_feed=bool(i % 10 == 4))
     if inputs is None:
         # partial units between 50 and 99 percent
